@@ -30,7 +30,7 @@ CONSTANT DirDev
 DevNames == {"iwb_returns_input", "iwb_counts_escaped", "escaper_drops_apos",
              "callee_inherits", "truncate_cancels", "escapehtml_keeps_autoescape",
              "nonstring_raw", "truncate_off_by_one", "uri_space_raw", "js_quote_raw",
-             "nl2br_unescaped", "ns_attr_ignored"}
+             "nl2br_unescaped", "ns_attr_ignored", "deprecated_contextual_unspecified"}
 
 (***************************************************************************)
 (* Directives: [name, args] with args a sequence of values.                *)
@@ -175,9 +175,16 @@ PrintText(escOn, chain, v) ==
 (***************************************************************************)
 (* Effective autoescape mode.                                              *)
 (***************************************************************************)
-AutoescapeAttrs == {"unspecified", "true", "false", "contextual"}
+\* "deprecated-contextual" is the old spelling of "contextual" (the parser
+\* accepts both): like it, it counts as on
+AutoescapeAttrs == {"unspecified", "true", "false", "contextual", "deprecated-contextual"}
 
-EffectiveEscape(nsAttr, tAttr) ==
+\* deviation: the deprecated spelling is read as "nothing written"
+NormAttr(a) == IF a = "deprecated-contextual" /\ "deprecated_contextual_unspecified" \in DirDev
+               THEN "unspecified" ELSE a
+
+EffectiveEscape(nsAttr0, tAttr0) ==
+  LET nsAttr == NormAttr(nsAttr0) tAttr == NormAttr(tAttr0) IN
   IF tAttr # "unspecified" THEN tAttr # "false"
   ELSE IF "ns_attr_ignored" \in DirDev THEN TRUE
   ELSE nsAttr # "false"
@@ -187,6 +194,7 @@ EffectiveEscapeTable ==
   [p \in AutoescapeAttrs \X AutoescapeAttrs |->
      CASE p[2] = "true" -> TRUE
        [] p[2] = "contextual" -> TRUE
+       [] p[2] = "deprecated-contextual" -> TRUE
        [] p[2] = "false" -> FALSE
        [] p[2] = "unspecified" /\ p[1] = "false" -> FALSE
        [] OTHER -> TRUE]
